@@ -828,7 +828,11 @@ func (d *Driver) Exec(opName string, a M) M {
 	d.LastRaw = nil
 	if f := S(a, "fault"); f != "" {
 		// fault plan: every call of storage method f made while serving this operation fails
-		d.Store.SetFault(0, f, "error")
+		kind := S(a, "faultKind")
+		if kind == "" {
+			kind = "error"
+		}
+		d.Store.SetFault(0, f, kind)
 	}
 	if k, ok := a["faultAt"].(int); ok && k > 0 {
 		// fault plan of the C10 sweep: the k-th storage call of this operation fails
@@ -846,7 +850,7 @@ func (d *Driver) Exec(opName string, a M) M {
 			j = d.respJournal
 		}
 		for _, e := range j {
-			if e.Err == modelstore.ErrInjected.Error() || e.Err == context.DeadlineExceeded.Error() {
+			if e.Err == modelstore.ErrInjected.Error() || e.Err == context.DeadlineExceeded.Error() || e.Err == modelstore.ErrInjectedOIDC.Error() {
 				out["faulted"] = true
 				out["faultedCall"] = e.Method
 			}
